@@ -25,6 +25,7 @@ import (
 	"github.com/rpcpool/yellowstone-faithful/blocktimeindex"
 	"github.com/rpcpool/yellowstone-faithful/bucketteer"
 	"github.com/rpcpool/yellowstone-faithful/carreader"
+	"github.com/rpcpool/yellowstone-faithful/compactindexsized"
 	deprecatedbucketter "github.com/rpcpool/yellowstone-faithful/deprecated/bucketteer"
 	"github.com/rpcpool/yellowstone-faithful/gsfa"
 	hugecache "github.com/rpcpool/yellowstone-faithful/huge-cache"
@@ -888,6 +889,11 @@ func (ser *Epoch) GetBlock(ctx context.Context, slot uint64) (*ipldbindcode.Bloc
 	if err != nil {
 		return nil, cid.Cid{}, fmt.Errorf("failed to decode block with CID %s: %w", wantedCid, err)
 	}
+	// The slot-to-cid index only compares a truncated hash of the key, so a slot that is not in
+	// the index can resolve to the block of another slot. Confirm the key.
+	if uint64(decoded.Slot) != slot {
+		return nil, cid.Cid{}, fmt.Errorf("slot %d resolved to the block of slot %d: %w", slot, decoded.Slot, compactindexsized.ErrNotFound)
+	}
 	return decoded, wantedCid, nil
 }
 
@@ -965,6 +971,15 @@ func (ser *Epoch) GetTransaction(ctx context.Context, sig solana.Signature) (*ip
 	decoded, err := iplddecoders.DecodeTransaction(data)
 	if err != nil {
 		return nil, cid.Cid{}, fmt.Errorf("failed to decode transaction with CID %s: %w", wantedCid, err)
+	}
+	// The sig-to-cid index only compares a truncated hash of the key, so a signature that is not in
+	// the index can resolve to another transaction. Confirm the key.
+	gotSig, err := readFirstSignature(decoded.Data.Bytes())
+	if err != nil {
+		return nil, cid.Cid{}, fmt.Errorf("failed to read the signature of transaction with CID %s: %w", wantedCid, err)
+	}
+	if gotSig != sig {
+		return nil, cid.Cid{}, fmt.Errorf("signature %s resolved to the transaction %s: %w", sig, gotSig, compactindexsized.ErrNotFound)
 	}
 	return decoded, wantedCid, nil
 }
